@@ -224,6 +224,7 @@ var props = map[string]*prop{
 		level: "exploration", exhaustive: true,
 		jobs: []job{
 			regress,
+			{name: "idle", run: "^TestC08_Idle$", thoroughOnly: true},
 			{name: "list-untagged", run: "^TestC08_List$", plain: true},
 			{name: "back-untagged", run: "^TestC08_Back$", plain: true, shards: [2]int{4, 8}},
 			{name: "cold-concurrent", run: "^TestC08_ColdConcurrent$", shards: [2]int{2, 4}, weight: 4},
